@@ -446,6 +446,10 @@ func c03WhoDeletes(c *Ctx) {
 				c.R.Bad(rule, construct, c.P.Pos(del.Pos()), "a DELETE request at a site / on a prefix that is not one of the confirmed ones: objects other clients rely on may disappear")
 				continue
 			}
+			if dhScope != nil && dhScope.Contains(fn) && pfx == "root" && retiredListElement(fn, tgt.KeySuffix) {
+				c.R.OK(rule, construct+" (retired names)", c.P.Pos(del.Pos()), "vacuum: completes the best-effort retirement of a version whose history it is about to delete (C09.gc-retires-first)")
+				continue
+			}
 			if dhScope != nil && dhScope.Contains(fn) && pfx == "root" {
 				// only for an empty, clean, committed tree
 				sizeZero := false
@@ -488,6 +492,42 @@ func c03WhoDeletes(c *Ctx) {
 			c.R.OK(rule, construct, c.P.Pos(del.Pos()), reason)
 		}
 	}
+}
+
+// retiredListElement: the key suffix of a DELETE is an element of the very list of retired version
+// names over which the function also deletes under merged/ (the first result of
+// getHistoricRootsAndNodes).
+func retiredListElement(fn *ssa.Function, suffix ssa.Value) bool {
+	listOf := func(v ssa.Value) ssa.Value {
+		if v == nil {
+			return nil
+		}
+		ld, ok := an.Unwrap(v).(*ssa.UnOp)
+		if !ok || ld.Op != token.MUL {
+			return nil
+		}
+		ia, ok := ld.X.(*ssa.IndexAddr)
+		if !ok {
+			return nil
+		}
+		return ia.X
+	}
+	mine := listOf(suffix)
+	if mine == nil {
+		return false
+	}
+	for _, d := range deleteCalls(fn) {
+		t := deleteTargetOf(d)
+		if t == nil {
+			continue
+		}
+		for _, f := range t.PrefixThrough {
+			if f.Name() == "merged" && listOf(t.KeySuffix) == mine {
+				return true
+			}
+		}
+	}
+	return false
 }
 
 // ---- C03.retired-source ------------------------------------------------------------------------
